@@ -150,18 +150,21 @@ Section Top.
     Lemma run_state_cases : shape2 (run_state sc c0).
     Proof.
       unfold run_state. cbv zeta.
-      pose proof (same6_inv_list sc (init_state c0)) as L1. pose proof (inv_list_res sc (init_state c0)) as R1.
-      destruct (inv_list sc (init_state c0)) as [s1 r1]. cbn [fst snd] in *.
-      destruct L1 as [C1 [B1 [K1 [A1 [T1 X1]]]]]. cbn [init_state r_cl r_tbl r_cache r_aband r_tr r_abort] in *.
+      pose proof (same6_inv_list sc (init_state sc c0)) as L1. pose proof (inv_list_res sc (init_state sc c0)) as R1.
+      pose proof (known_inv_list sc (init_state sc c0)) as KN1.
+      destruct (inv_list sc (init_state sc c0)) as [s1 r1]. cbn [fst snd] in *.
+      destruct L1 as [C1 [B1 [K1 [A1 [T1 X1]]]]]. cbn [init_state r_cl r_tbl r_cache r_aband r_tr r_abort r_known] in *.
       assert (AP1 : allp s1) by (unfold allp; rewrite B1; constructor).
       destruct r1 as [st|]; [|left; exists s1; auto].
       specialize (R1 st eq_refl). subst st. fold (prev_of c0). fold (locals_of sc). fold (cand_of sc c0).
       pose proof (same6_fetch_all sc (cand_of sc c0) s1) as L2. pose proof (fetch_all_exact sc (cand_of sc c0) s1) as FE.
+      pose proof (known_fetch_all sc (cand_of sc c0) s1) as KN2.
       destruct (fetch_all sc s1 (cand_of sc c0)) as [s2 r2]. cbn [fst snd] in *.
       destruct L2 as [C2 [B2 [K2 [A2 [T2 X2]]]]].
       assert (AP2 : allp s2) by (unfold allp; rewrite B2; exact AP1).
       destruct r2 as [pobjs|]; [|left; exists s2; split; [reflexivity|split; [congruence|exact AP2]]].
-      specialize (FE pobjs eq_refl). rewrite C1 in FE. subst pobjs. rewrite <- plan_of_eq.
+      assert (HK1 : r_known s1 = live_crds sc (r_cl s1)) by (rewrite KN1, C1; reflexivity).
+      specialize (FE pobjs HK1 eq_refl). rewrite C1 in FE. subst pobjs. rewrite KN2, KN1, <- plan_of_eq.
       pose proof (register_fields sc pl s2) as [C3 [K3 [A3 [T3 X3]]]].
       pose proof (allp_register sc pl s2 AP2) as AP3.
       pose proof (same6_inv_list sc (register sc pl s2)) as L4. pose proof (inv_list_res sc (register sc pl s2)) as R4.
